@@ -2809,6 +2809,11 @@ def generate_signatures(repo):
 #    e    ::= int | name | self.a | e (+|-|*) e | -e | not e | e and e | e or e (as tests) | e (<|<=|>|>=|==|!=) e | e [not] in s
 #           | Fraction(e, e) | len(e) | l[0] (after `if l:`) | l[:e] | frozenset(e) | frozenset(e for .. in .. [if ..] ..)
 #           | d.get(k, e) | dict(d) | {k: e for t in e} | d.items() | d.values() | a dictionary as an iterable (its keys)
+#    in a definition declared raising (RankedToCondorcetVotes.convert: dynamically typed code) also
+#           x = [] .. x.append(e) | x.extend(e) | x = isinstance(e, collections.abc.Set) | x = (e,) | l[i] | l[a:] | enumerate(l)
+#           | iterating an item / an item-or-tuple | if c: x = e (x used later: UnboundLocalError when not bound) | a call of a declared
+#           external function (a function parameter of the generated definition)
+#    there an operation that may raise sets the exception flag threaded through every loop state (Prelude/PyConv.v py_try / py_val)
 #    dictionary keys: a candidate, a frozenset of candidates, an item, a tuple of two of these, or an opaque key - encoded as wire
 #    values (Prelude/PyConv.v)
 T_I, T_K = 'item', 'key'
@@ -2822,6 +2827,21 @@ def TM(t):
     return ('M', t)           # a set under construction (set() .. add / update): the list of what was added
 
 
+T_V = 'pyv'                  # an item or a tuple of items (Prelude/PyConv.v pyv)
+
+
+class TyVar:
+    """the item type of a list that starts as [] : fixed by the first append / extend"""
+    count = 0
+
+    live = []
+
+    def __init__(self):
+        TyVar.count += 1
+        self.id, self.val = TyVar.count, None
+        TyVar.live.append(self)
+
+
 CV_DICT = TD(T_K, T_Q)
 CV_APPROVAL = TD(TS(T_C), T_Q)
 CV_RANKED = TD(TL(T_I), T_Q)
@@ -2830,6 +2850,12 @@ CV_NESTED = TD(T_K, CV_DICT)
 
 
 def cv_type(t):
+    if isinstance(t, TyVar):
+        return cv_type(t.val) if t.val is not None else '@@TV%d@@' % t.id
+    if t == T_V:
+        return 'pyv'
+    if isinstance(t, tuple) and t[0] == 'O':
+        return 'option (%s)' % cv_type(t[1])
     if t == T_I:
         return 'item'
     if t == T_K:
@@ -2846,11 +2872,16 @@ def cv_type(t):
 
 
 CV_RESERVED = {'item', 'kc', 'kset', 'kitem', 'sx', 'A', 'L', 'IP', 'IS', 'members', 'canon_set', 'gadd', 'gset', 'gget', 'pydict',
-               'ranked', 'sballot', 'flatten', 'set_diff', 'scorer', 'conv', 'dconv', 'oconv', 'insert_c', 'st', 'it', 'hd'}
+               'ranked', 'sballot', 'flatten', 'set_diff', 'scorer', 'conv', 'dconv', 'oconv', 'insert_c', 'st', 'it', 'hd',
+               'exn', 'pyv', 'VI', 'VT', 'cvexn', 'skipn'}
 
 
 class CV:
-    def __init__(self, known, module_names, imports, mutable_params=()):
+    def __init__(self, known, module_names, imports, mutable_params=(), raises=False, ext=None):
+        self.raises = raises                # the definition answers value + cvexn; the flag exn' is part of every loop state
+        self.ext = ext or {}                # dotted python name -> (coq parameter, [argument types], result type, module)
+        self.pending = [] if raises else None
+        self.nh = 0
         self.known = known                  # dotted / plain python name -> dict(coq, params=[types], mutates=0|None, ret, module)
         self.module_names, self.imports = module_names, imports
         self.dd = set()                     # locals bound to a collections.defaultdict(int)
@@ -2882,11 +2913,70 @@ class CV:
             return 'self.' + e.attr
         return None
 
+    def res(self, t):
+        if isinstance(t, TyVar):
+            return self.res(t.val) if t.val is not None else t
+        if isinstance(t, tuple):
+            return tuple(self.res(x) if isinstance(x, (tuple, TyVar)) else x for x in t)
+        return t
+
     def lookup(self, e, env):
         r = self.ref(e)
         if r is None or r not in env:
             die(e, 'unknown name')
-        return env[r]
+        t, ty = env[r]
+        ty = self.res(ty)
+        if t is not None and isinstance(ty, tuple) and ty[0] == 'O':
+            # a local bound on one path of an earlier conditional only: UnboundLocalError where it is not bound
+            return self.partial(t, 'CvUnboundLocalError', ty[1], e)
+        return t, ty
+
+    def quiet(self, f):
+        saved, self.pending = self.pending, None
+        try:
+            return f()
+        finally:
+            self.pending = saved
+
+    def filler(self, ty, node):
+        ty = self.res(ty)
+        if ty == T_B:
+            return 'false'
+        if ty == T_Z:
+            return '0%Z'
+        if ty == T_Q:
+            return '0%Q'
+        if ty == T_C:
+            return 'xH'
+        if ty == T_I:
+            return '(IP xH)'
+        if ty == T_V:
+            return '(VT [])'
+        if isinstance(ty, tuple) and ty[0] in ('L', 'S', 'M', 'D'):
+            return '[]'
+        if isinstance(ty, tuple) and ty[0] == 'P':
+            return '(%s, %s)' % (self.filler(ty[1], node), self.filler(ty[2], node))
+        die(node, 'no filler value of type %s' % (ty,))
+
+    def partial(self, term, exn, ty, node):
+        """an operation that may raise: hoisted in front of the statement (in evaluation order); sets the flag"""
+        if not self.raises:
+            die(node, 'operation that may raise %s in a definition that is not declared raising' % exn)
+        if self.pending is None:
+            die(node, 'operation that may raise %s inside a conditionally / repeatedly evaluated expression' % exn)
+        self.nh += 1
+        var = "e'h%d" % self.nh
+        self.pending.append((var, term, exn, self.filler(ty, node)))
+        return var, ty
+
+    def flush(self):
+        """the lets of the operations hoisted by the expressions just translated"""
+        hs, out = (self.pending or []), ''
+        if self.pending is not None:
+            self.pending = []
+        for var, term, exn, fl in hs:
+            out += "let exn' := (py_try exn' %s %s) in let %s := (py_val %s %s) in\n  " % (term, exn, var, term, fl)
+        return out
 
     # ---- coercions
     def num(self, x, want, node):
@@ -2918,7 +3008,7 @@ class CV:
     def cond(self, e, env):
         if isinstance(e, ast.BoolOp):
             op = ' && ' if isinstance(e.op, ast.And) else ' || '
-            return '(%s)' % op.join(self.cond(v, env) for v in e.values)
+            return '(%s)' % op.join([self.cond(e.values[0], env)] + [self.quiet(lambda v=v: self.cond(v, env)) for v in e.values[1:]])
         if isinstance(e, ast.UnaryOp) and isinstance(e.op, ast.Not):
             return '(negb %s)' % self.cond(e.operand, env)
         t, ty = self.expr(e, env)
@@ -2984,15 +3074,26 @@ class CV:
                 a, n = self.expr(e.value, env), self.expr(sl.upper, env)
                 if isinstance(a[1], tuple) and a[1][0] == 'L' and n[1] == T_Z:
                     return '(py_slice_to %s %s)' % (a[0], n[0]), a[1]
+            if isinstance(sl, ast.Slice) and sl.upper is None and sl.step is None and sl.lower is not None:
+                a, n = self.expr(e.value, env), self.expr(sl.lower, env)
+                if isinstance(a[1], tuple) and a[1][0] == 'L' and n[1] == T_Z:
+                    return '(py_slice_from %s %s)' % (a[0], n[0]), a[1]
+            if not isinstance(sl, ast.Slice):
+                a, n = self.expr(e.value, env), self.expr(sl, env)
+                if isinstance(a[1], tuple) and a[1][0] == 'L' and not isinstance(a[1][1], TyVar) and n[1] == T_Z:
+                    return self.partial('(py_index %s %s)' % (a[0], n[0]), 'CvIndexError', a[1][1], e)      # l[i]: IndexError out of range
             die(e, 'subscript')
+        if isinstance(e, ast.Tuple) and len(e.elts) == 1 and not isinstance(e.elts[0], ast.Starred):
+            a = self.expr(e.elts[0], env)
+            return '[%s]' % a[0], TL(a[1])               # (x,): a tuple is carried as the list of its components
         if isinstance(e, ast.DictComp):
             if len(e.generators) != 1 or e.generators[0].ifs or e.generators[0].is_async:
                 die(e, 'dictionary comprehension form')
             g = e.generators[0]
             it, ety = self.iterable(g.iter, env)
-            env2, pre = self.bind_target(g.target, 'itd_', ety, env, e)
-            k = self.key(e.key, env2)
-            v = self.num(self.expr(e.value, env2), T_Q, e)
+            env2, pre = self.quiet(lambda: self.bind_target(g.target, 'itd_', ety, env, e))
+            k = self.quiet(lambda: self.key(e.key, env2))
+            v = self.quiet(lambda: self.num(self.expr(e.value, env2), T_Q, e))
             return '(py_dict_of (map (fun itd_ => %s(%s, %s)) %s))' % (pre, k, v, it), CV_DICT
         if isinstance(e, ast.Call):
             return self.call(e, env)
@@ -3031,7 +3132,7 @@ class CV:
             die(e, 'len of a %s' % (a[1],))
         if name == 'frozenset' and len(args) == 1:
             if isinstance(args[0], ast.GeneratorExp):
-                t, ty = self.comp(args[0].elt, args[0].generators, env, e)
+                t, ty = self.quiet(lambda: self.comp(args[0].elt, args[0].generators, env, e))
             else:
                 t, ty0 = self.expr(args[0], env)
                 if not (isinstance(ty0, tuple) and ty0[0] in ('L', 'S', 'M')):
@@ -3055,7 +3156,29 @@ class CV:
             a, b = self.expr(fn.value, env), self.expr(args[0], env)
             if a[1] == TS(T_C) and isinstance(b[1], tuple) and b[1][0] in ('L', 'S', 'M') and b[1][1] == T_C:
                 return '(py_set_difference %s %s)' % (a[0], b[0]), TS(T_C)
+            if a[1] == TS(T_C) and b[1] == TL(T_I):
+                return '(py_set_difference_items %s %s)' % (a[0], b[0]), TS(T_C)
             die(e, 'difference of %s / %s' % (a[1], b[1]))
+        if name == 'isinstance' and len(args) == 2 and ast.unparse(args[1]) == 'collections.abc.Set':
+            self.builtin('isinstance', e, env)
+            self.need_collections(e, env)
+            a = self.expr(args[0], env)
+            if a[1] == T_I:
+                return '(py_is_set %s)' % a[0], T_B
+            die(e, 'isinstance test on a %s' % (a[1],))
+        if name in self.ext:
+            cn, ptys, rty, module = self.ext[name]
+            if module not in self.imports or name.split('.')[0] in env:
+                die(e, 'the source does not reach %s through a plain `import %s`' % (name, module))
+            if len(args) != len(ptys):
+                die(e, 'argument list of %s' % name)
+            out = []
+            for a, pt in zip(args, ptys):
+                x = self.expr(a, env)
+                if x[1] != pt:
+                    die(e, 'argument of type %s where %s is expected' % (x[1], pt))
+                out.append(x[0])
+            return '(%s %s)' % (cn, ' '.join(out)), rty
         die(e, 'call')
 
     def iterable(self, e, env):
@@ -3066,11 +3189,22 @@ class CV:
                     return t, TP(ty[1], ty[2])
                 return '(map snd %s)' % t, ty[2]
             die(e, '.%s() of a %s' % (e.func.attr, ty))
+        if isinstance(e, ast.Call) and isinstance(e.func, ast.Name) and e.func.id == 'enumerate' and len(e.args) == 1 and not e.keywords \
+                and not isinstance(e.args[0], ast.Starred):
+            self.builtin('enumerate', e, env)
+            t, ty = self.expr(e.args[0], env)
+            if isinstance(ty, tuple) and ty[0] == 'L' and not isinstance(ty[1], TyVar):
+                return '(py_enumerate %s)' % t, TP(T_Z, ty[1])
+            die(e, 'enumerate of a %s' % (ty,))
         t, ty = self.expr(e, env)
-        if isinstance(ty, tuple) and ty[0] in ('L', 'S'):
+        if isinstance(ty, tuple) and ty[0] in ('L', 'S') and not isinstance(ty[1], TyVar):
             return t, ty[1]
         if isinstance(ty, tuple) and ty[0] == 'D':
             return '(map fst %s)' % t, ty[1]       # iterating a dictionary: its keys
+        if ty == T_I:
+            return self.partial('(py_item_iter %s)' % t, 'CvTypeError', TL(T_I), e)[0], T_I      # a plain candidate is not iterable
+        if ty == T_V:
+            return self.partial('(py_iter_v %s)' % t, 'CvTypeError', TL(T_I), e)[0], T_I
         die(e, 'iteration over a %s' % (ty,))
 
     def bind_target(self, target, var, ety, env, node):
@@ -3107,7 +3241,7 @@ class CV:
                 add(self.ref(tg.value) if isinstance(tg, ast.Subscript) else self.ref(tg))
             elif isinstance(s, ast.Expr) and isinstance(s.value, ast.Call):
                 c = s.value
-                if isinstance(c.func, ast.Attribute) and c.func.attr in ('add', 'update') and isinstance(c.func.value, ast.Name):
+                if isinstance(c.func, ast.Attribute) and c.func.attr in ('add', 'update', 'append', 'extend') and isinstance(c.func.value, ast.Name):
                     add(c.func.value.id)
                 elif ast.unparse(c.func) in self.known and self.known[ast.unparse(c.func)].get('mutates') == 0 and c.args \
                         and isinstance(c.args[0], ast.Name):
@@ -3127,6 +3261,10 @@ class CV:
                 die(s, 'statement')
         return out
 
+    def assigned_x(self, stmts):
+        out = self.assigned(stmts)
+        return out + ['#exn'] if self.raises else out
+
     @staticmethod
     def tuple_of(parts):
         return parts[0] if len(parts) == 1 else '(%s, %s)' % (parts[0], CV.tuple_of(parts[1:]))
@@ -3142,21 +3280,42 @@ class CV:
                 cur = '(snd %s)' % cur
         return out
 
-    def state_fin(self, state, env0, node):
+    def state_fin(self, state, env0, node, want=None):
+        """want: local -> the type it leaves the block with (default: the type it enters with)"""
         def fin(e2):
             parts = []
             for r in state:
+                w = self.res((want or {}).get(r, env0[r][1] if r in env0 else None))
+                if isinstance(w, tuple) and w[0] == 'O' and (r not in env0 or env0[r][0] is None):
+                    # a local bound on some paths only
+                    if r in e2 and e2[r][0] is not None:
+                        if self.res(e2[r][1]) != w[1]:
+                            die(node, 'local %s is bound with different types' % r)
+                        parts.append('(Some %s)' % e2[r][0])
+                    else:
+                        parts.append('None')
+                    continue
                 if r not in e2 or e2[r][0] is None:
                     die(node, 'local %s has no value at the end of the block' % r)
-                if e2[r][1] != env0[r][1]:
-                    die(node, 'local %s changes its type (%s -> %s)' % (r, env0[r][1], e2[r][1]))
-                parts.append(e2[r][0])
+                have = self.res(e2[r][1])
+                if have == w:
+                    parts.append(e2[r][0])
+                elif w == T_V and have == T_I:
+                    parts.append('(VI %s)' % e2[r][0])
+                elif w == T_V and have == TL(T_I):
+                    parts.append('(VT %s)' % e2[r][0])
+                else:
+                    die(node, 'local %s changes its type (%s -> %s)' % (r, w, have))
             return self.tuple_of(parts)
         return fin
 
-    def rebind(self, state, text, env, k, node):
+    def rebind(self, state, text, env, k, node, want=None):
         """let <state> := text in <k>"""
         env = dict(env)
+        for r, ty in (want or {}).items():
+            if r in state:
+                nm = env[r][0] if r in env and env[r][0] is not None else self.ident(r)
+                env[r] = (nm, ty)
         for key_ in [x for x in env if isinstance(x, tuple) and x[0] == 'head' and x[1] in state]:
             del env[key_]
         if len(state) == 1:
@@ -3190,7 +3349,21 @@ class CV:
             t, ty = self.expr(s.value, env)
             if ty != CV_DICT:
                 die(s, 'result of type %s' % (ty,))
+            if self.raises:
+                return self.flush() + "(py_result exn' %s)" % t
             return t
+        if self.raises and isinstance(s, (ast.Assign, ast.AugAssign, ast.Expr)):
+            # the operations hoisted by the expressions of this statement go in front of it
+            done = {}
+
+            def k2(env2):
+                done['pre'] = self.flush()
+                return k(env2)
+            text = self.stmt(s, env, k2)
+            return done['pre'] + text
+        return self.stmt(s, env, k)
+
+    def stmt(self, s, env, k):
         if isinstance(s, ast.Assign):
             if len(s.targets) != 1:
                 die(s, 'multiple assignment')
@@ -3227,6 +3400,11 @@ class CV:
                 env2[r] = (nm, TM(T_C))
                 self.mutable.add(r)
                 return 'let %s := ([] : list C) in\n  %s' % (nm, k(env2))
+            if isinstance(v, ast.List) and not v.elts:
+                tv = TyVar()
+                env2[r] = (nm, TL(tv))
+                self.mutable.add(r)
+                return 'let %s := ([] : list (%s)) in\n  %s' % (nm, cv_type(tv), k(env2))
             t, ty = self.expr(v, env)
             env2[r] = (nm, ty)
             return 'let %s := %s in\n  %s' % (nm, t, k(env2))
@@ -3256,6 +3434,24 @@ class CV:
                 if not (isinstance(a[1], tuple) and a[1][0] in ('L', 'S') and a[1][1] == T_C):
                     die(s, 'update by a %s' % (a[1],))
                 return 'let %s := (%s ++ %s) in\n  %s' % (env[r][0], env[r][0], a[0], k(env))
+            if isinstance(c.func, ast.Attribute) and c.func.attr in ('append', 'extend') and isinstance(c.func.value, ast.Name) and len(c.args) == 1:
+                r = c.func.value.id
+                if r not in env or env[r][0] is None or not (isinstance(env[r][1], tuple) and env[r][1][0] == 'L') or r not in self.mutable:
+                    die(s, '%s on something that is not a list built here' % c.func.attr)
+                tv = env[r][1][1]
+                if c.func.attr == 'append':
+                    a = self.expr(c.args[0], env)
+                    add, ety = '[%s]' % a[0], a[1]
+                else:
+                    it, ety = self.iterable(c.args[0], env)
+                    add = it
+                if isinstance(tv, TyVar) and tv.val is None:
+                    if isinstance(ety, TyVar) or ety in ('DEAD', 'EXN'):
+                        die(s, 'item type')
+                    tv.val = ety
+                if self.res(tv) != self.res(ety):
+                    die(s, '%s of a %s to a list of %s' % (c.func.attr, ety, self.res(tv)))
+                return 'let %s := (%s ++ %s) in\n  %s' % (env[r][0], env[r][0], add, k(env))
             name = ast.unparse(c.func)
             kn = self.known.get(name)
             if kn is not None and kn.get('mutates') == 0 and len(c.args) == len(kn['params']) and isinstance(c.args[0], ast.Name):
@@ -3279,27 +3475,24 @@ class CV:
         die(s, 'statement')
 
     def if_stmt(self, s, env, k):
-        assigned = self.assigned(list(s.body) + list(s.orelse))
+        assigned = self.assigned_x(list(s.body) + list(s.orelse))
         state = [r for r in assigned if r in env and env[r][0] is not None]
         local = [r for r in assigned if r not in state]
-        if not state:
+        if not state and not local:
             die(s, 'conditional without an effect on the translated locals')
-        fin = self.state_fin(state, env, s)
         test, swap = s.test, False
         if isinstance(test, ast.UnaryOp) and isinstance(test.op, ast.Not) and isinstance(test.operand, ast.Call) \
                 and ast.unparse(test.operand.func) == 'isinstance':
             test, swap = test.operand, True
         et, ee = dict(env), dict(env)
-        if isinstance(test, ast.Call) and ast.unparse(test.func) == 'isinstance':
+        if isinstance(test, ast.Call) and ast.unparse(test.func) == 'isinstance' and len(test.args) == 2 and not test.keywords \
+                and isinstance(test.args[0], ast.Name) and test.args[0].id in env and env[test.args[0].id][1] == T_I \
+                and test.args[0].id not in assigned:
             self.builtin('isinstance', test, env)
-            if len(test.args) != 2 or test.keywords or ast.unparse(test.args[1]) != 'collections.abc.Set' or not isinstance(test.args[0], ast.Name):
+            if ast.unparse(test.args[1]) != 'collections.abc.Set':
                 die(test, 'isinstance test')
             self.need_collections(test, env)
             x = test.args[0].id
-            if x not in env or env[x][1] != T_I:
-                die(test, 'isinstance test on something that is not an item of a ranked ballot')
-            if x in assigned:
-                die(test, 'tested item reassigned')
             nm = env[x][0].rstrip("'")
             ns, nc = nm + "'s", nm + "'c"
             et[x], ee[x] = (ns, TS(T_C)), (nc, T_C)
@@ -3310,20 +3503,57 @@ class CV:
                 if swap:
                     a, b = b, a
                 return '(match %s with IS %s => %s | IP %s => %s end)' % (env[x][0], ns, a, nc, b)
-        elif isinstance(test, ast.Name) and test.id in env and isinstance(env[test.id][1], tuple) and env[test.id][1][0] == 'L' \
-                and test.id not in assigned:
-            x = test.id
+        elif isinstance(s.test, ast.Name) and s.test.id in env and env[s.test.id][0] is not None and isinstance(self.res(env[s.test.id][1]), tuple) \
+                and self.res(env[s.test.id][1])[0] == 'L' and not isinstance(self.res(env[s.test.id][1])[1], TyVar) and s.test.id not in assigned:
+            x = s.test.id
             hd = env[x][0].rstrip("'") + "'hd"
-            et[('head', x)] = (hd, env[x][1][1])
+            et[('head', x)] = (hd, self.res(env[x][1])[1])
 
             def mk(a, b):
                 return '(match %s with %s :: _ => %s | [] => %s end)' % (env[x][0], hd, a, b)
         else:
-            c = self.cond(test, env)
+            c = self.cond(s.test, env)
 
             def mk(a, b):
                 return '(if %s then %s else %s)' % (c, a, b)
+        pre = self.flush()
         self.depth += 1
+        # dry run: the types the locals leave the two paths with
+        seen = []
+
+        def probe(e2):
+            seen.append({r: ((self.res(e2[r][1]) if e2[r][0] is not None else None) if r in e2 else None) for r in state + local})
+            return '?'
+        snap = (set(self.dd), set(self.mutable), list(self.pending) if self.pending is not None else None, self.nh)
+        self.block(s.body, et, probe)
+        self.dd, self.mutable, self.pending, self.nh = set(snap[0]), set(snap[1]), (list(snap[2]) if snap[2] is not None else None), snap[3]
+        if _strip(s.orelse):
+            self.block(s.orelse, ee, probe)
+        else:
+            probe(ee)
+        self.dd, self.mutable, self.pending, self.nh = set(snap[0]), set(snap[1]), (list(snap[2]) if snap[2] is not None else None), snap[3]
+        want, keep = {}, []
+        for r in state + local:
+            ta, tb = seen[0][r], seen[1][r]
+            if r in state:
+                if ta is None or tb is None:
+                    die(s, 'local %s has no value at the end of a path' % r)
+                if ta == tb:
+                    want[r] = ta
+                elif {ta, tb} == {T_I, TL(T_I)} or (T_V in (ta, tb) and {ta, tb} <= {T_V, T_I, TL(T_I)}):
+                    want[r] = T_V
+                else:
+                    die(s, 'local %s leaves the two paths as %s / %s' % (r, ta, tb))
+                keep.append(r)
+            elif ta is not None and tb is not None and ta == tb and ta not in ('DEAD', 'EXN'):
+                want[r] = ta            # bound on both paths
+                keep.append(r)
+            elif (ta is None) != (tb is None) and (ta or tb) not in ('DEAD', 'EXN') and self.raises:
+                want[r] = TO(ta or tb)  # bound on one path only: its later use may raise UnboundLocalError
+                keep.append(r)
+        if not keep:
+            die(s, 'conditional without an effect on the translated locals')
+        fin = self.state_fin(keep, env, s, want)
         dd0, mut0 = set(self.dd), set(self.mutable)
         a = self.block(s.body, et, fin)
         dd1, mut1 = set(self.dd), set(self.mutable)
@@ -3331,7 +3561,7 @@ class CV:
         b = self.block(s.orelse, ee, fin) if _strip(s.orelse) else fin(ee)
         self.dd, self.mutable = self.dd & dd1, self.mutable & mut1
         self.depth -= 1
-        return self.rebind(state, mk(a, b), self.drop_locals(env, local), k, s)
+        return pre + self.rebind(keep, mk(a, b), self.drop_locals(env, [r for r in local if r not in keep]), k, s, want)
 
     def for_stmt(self, s, env, k):
         if s.orelse:
@@ -3343,10 +3573,11 @@ class CV:
                                   ast.Global, ast.Nonlocal, ast.Delete, ast.NamedExpr)):
                     die(n, 'loop body form (%s)' % type(n).__name__)
         it, ety = self.iterable(s.iter, env)
+        pre0 = self.flush()
         targets = [n.id for n in ast.walk(s.target) if isinstance(n, ast.Name)]
-        if any(t in env for t in targets):
+        if any(t in env and env[t][1] != 'DEAD' for t in targets):
             die(s, 'loop target rebinds a local')
-        assigned = self.assigned(s.body)
+        assigned = self.assigned_x(s.body)
         state = [r for r in assigned if r in env and env[r][0] is not None and r not in targets]
         local = [r for r in assigned if r not in state]
         if not state:
@@ -3371,12 +3602,12 @@ class CV:
                 head += 'let %s := %s in ' % (env[r][0], pr)
         init = self.tuple_of([env[r][0] for r in state])
         text = '(fold_left (%s%s%s) %s %s)' % (head, pre, body, it, init)
-        return self.rebind(state, text, self.drop_locals(env, local + targets), k, s)
+        return pre0 + self.rebind(state, text, self.drop_locals(env, local + targets), k, s)
 
 
 CONVERT_HEADER = """(* GENERATED by tools/py2v.py (part 6) from %s -- do not edit. *)
 From Coq Require Import ZArith QArith List Bool.
-From VL Require Import Prelude.Sx Prelude.PyDict Prelude.GDict Prelude.PyNum Prelude.PyList Prelude.PyConv Model.GetNBest Model.Convert.
+From VL Require Import Prelude.Sx Prelude.PyDict Prelude.GDict Prelude.PyNum Prelude.PyList Prelude.PySeq Prelude.PyConv Model.GetNBest Model.Convert.
 Import ListNotations.
 (* Model.Convert is imported for the value representation only ([item], the wire keys kc / kset / kitem, canon_set); dictionaries,
    sets and their operations are read by Prelude/PyConv.v.  A loop is a fold_left over what it iterates, its state the locals its
@@ -3405,6 +3636,14 @@ CONVERT_UNITS = [
                  params=[('votes', 'votes', CV_NESTED)]),
             dict(name='InvertedApprovalVotes_convert', cls='InvertedApprovalVotes', fn='convert', static=True,
                  params=[('votes', 'votes', CV_APPROVAL)]),
+        ]),
+    ]),
+    # dynamically typed, nested loops over the ranks: its own unit, so that a rewrite the translator refuses leaves the unit above alone
+    ('ConvertPairs', [
+        ('votelib/convert.py', [
+            dict(name='RankedToCondorcetVotes_convert', cls='RankedToCondorcetVotes', fn='convert', raises=True,
+                 ext={'votelib.util.all_ranked_candidates': ('all_ranked_candidates', [CV_RANKED], TL(T_C), 'votelib.util')},
+                 params=[('unranked_at_bottom', 'self.unranked_at_bottom', T_B), ('votes', 'votes', CV_RANKED)]),
         ]),
     ]),
 ]
@@ -3465,17 +3704,30 @@ def translate_convert_unit(repo, files):
                     if declared != pyparams:
                         die(fd, 'parameters %s where %s are declared' % (pyparams, declared))
                     mut = d.get('mutates')
-                    cv = CV(known, module_names, imports, [declared[mut]] if mut is not None else [])
+                    ext = d.get('ext') or {}
+                    cv = CV(known, module_names, imports, [declared[mut]] if mut is not None else [], bool(d.get('raises')), ext)
                     for cn, r, ty in d['params']:
                         env[r] = (cn, ty)
+                    if d.get('raises'):
+                        env['#exn'] = ("exn'", 'EXN')
                     if mut is None:
                         text = cv.block(fd.body, env, None)
                     else:
-                        if any(isinstance(n, ast.Return) for n in ast.walk(fd)):
+                        if any(isinstance(n, ast.Return) for n in ast.walk(fd)) or d.get('raises'):
                             die(fd, 'return in a function that is read through the argument it updates')
                         text = cv.block(fd.body, env, lambda e2, r=declared[mut]: e2[r][0])
-                    plist = ' '.join('(%s : %s)' % (cn, cv_type(ty)) for cn, r, ty in d['params'])
-                    out.append('Definition %s %s : pydict :=\n  %s.' % (name, plist, text))
+                    if d.get('raises'):
+                        text = "let exn' := (None : option cvexn) in\n  " + text
+
+                    def tv_sub(m):
+                        tv = [t for t in TyVar.live if t.id == int(m.group(1))]
+                        if not tv or cv.res(tv[0]) is tv[0]:
+                            raise Unsupported('a list that starts as [] never gets an item of a known type')
+                        return cv_type(cv.res(tv[0]))
+                    text = re.sub(r'@@TV(\d+)@@', tv_sub, text)
+                    eparams = ['(%s : %s)' % (cn, cv_type(TFUN(ptys, rty))) for cn, ptys, rty, _ in ext.values()]
+                    plist = ' '.join(eparams + ['(%s : %s)' % (cn, cv_type(ty)) for cn, r, ty in d['params']])
+                    out.append('Definition %s %s : %s :=\n  %s.' % (name, plist, 'pydict + cvexn' if d.get('raises') else 'pydict', text))
                     functions[name] = 'ok'
                     if not d.get('cls'):
                         known['%s.%s' % (module, d['fn'])] = dict(coq=name, params=[ty for _, _, ty in d['params']], mutates=mut, module=module)
